@@ -11,6 +11,7 @@ static CoreT_& coreOf(FSM::Instance& i) { return static_cast<RootT&>(i).*get(Cor
 
 //------------------------------------------------------------------------------
 
+static bool loggerOf(FSM::Instance& i);
 static int prong1(hfsm2::Prong p) { return p == hfsm2::INVALID_PRONG ? 0 : p + 1; }
 
 template <int OC> struct OrthoDump {
@@ -98,6 +99,7 @@ static void snapshot(std::string& o, FSM::Instance& fsm) {
 	o += ",\"px\":";  jint(o, maskOf([&](int s) { return fsm.isPendingExit  ((hfsm2::StateID) s); }));
 	o += ",\"pc\":";  jint(o, maskOf([&](int s) { return fsm.isPendingChange((hfsm2::StateID) s); }));
 	o += ",\"on\":";  o += fsm.isActive((hfsm2::StateID) 0) ? "true" : "false";
+	o += ",\"lg\":";  jint(o, loggerOf(fsm) ? 1 : 0);
 	o += '}';
 }
 
@@ -149,6 +151,48 @@ static Op parseOp(const std::string& tok) {
 
 //------------------------------------------------------------------------------
 
+#ifdef HFSM2_ENABLE_LOG_INTERFACE
+// the logger: appends what it is told to the probe of the instance that is talking (its context)
+struct VLogger : Config::LoggerInterface {
+	using Ctx_ = vf::Ctx*;
+	static void item(Probe& p, const char* what) { if (!p.log.empty()) p.log += ','; p.log += "[\""; p.log += what; p.log += '"'; }
+	static long sid(hfsm2::StateID s) { return s == hfsm2::INVALID_STATE_ID ? 0 : (long) s + 1; }
+	void recordMethod(const Ctx_& c, const hfsm2::StateID origin, const hfsm2::Method method) override {
+		Probe& p = *c->probe; if (p.quiet) return;
+		item(p, "m"); p.log += ','; jint(p.log, sid(origin)); p.log += ",\""; p.log += (unsigned) method < 18 ? kMethodNames[(unsigned) method] : "?"; p.log += "\"]"; }
+	void recordTransition(const Ctx_& c, const hfsm2::StateID origin, const hfsm2::TransitionType type, const hfsm2::StateID target) override {
+		Probe& p = *c->probe; if (p.quiet) return;
+		item(p, "t"); p.log += ','; jint(p.log, sid(origin)); p.log += ",\""; p.log += kindName(type); p.log += "\","; jint(p.log, sid(target)); p.log += ']'; }
+#ifdef HFSM2_ENABLE_PLANS
+	void recordTaskStatus(const Ctx_& c, const hfsm2::StateID region, const hfsm2::StateID origin, const hfsm2::StatusEvent event) override {
+		Probe& p = *c->probe; if (p.quiet) return;
+		item(p, "ts"); p.log += ','; jint(p.log, sid(region)); p.log += ','; jint(p.log, sid(origin)); p.log += event == hfsm2::StatusEvent::SUCCEEDED ? ",\"succeeded\"]" : ",\"failed\"]"; }
+	void recordPlanStatus(const Ctx_& c, const hfsm2::StateID region, const hfsm2::StatusEvent event) override {
+		Probe& p = *c->probe; if (p.quiet) return;
+		item(p, "ps"); p.log += ','; jint(p.log, sid(region)); p.log += event == hfsm2::StatusEvent::SUCCEEDED ? ",\"succeeded\"]" : ",\"failed\"]"; }
+#endif
+	void recordCancelledPending(const Ctx_& c, const hfsm2::StateID origin) override {
+		Probe& p = *c->probe; if (p.quiet) return;
+		item(p, "cp"); p.log += ','; jint(p.log, sid(origin)); p.log += ']'; }
+	void recordSelectResolution(const Ctx_& c, const hfsm2::StateID head, const hfsm2::Prong prong) override {
+		Probe& p = *c->probe; if (p.quiet) return;
+		item(p, "sel"); p.log += ','; jint(p.log, sid(head)); p.log += ','; jint(p.log, prong1(prong)); p.log += ']'; }
+#ifdef HFSM2_ENABLE_UTILITY_THEORY
+	static void jrat(std::string& o, const vf::Rational& r) { o += '['; jint(o, r.n); o += ','; jint(o, r.d); o += ']'; }
+	void recordUtilityResolution(const Ctx_& c, const hfsm2::StateID head, const hfsm2::Prong prong, const vf::Rational utility) override {
+		Probe& p = *c->probe; if (p.quiet) return;
+		item(p, "ut"); p.log += ','; jint(p.log, sid(head)); p.log += ','; jint(p.log, prong1(prong)); p.log += ','; jrat(p.log, utility); p.log += ']'; }
+	void recordRandomResolution(const Ctx_& c, const hfsm2::StateID head, const hfsm2::Prong prong, const vf::Rational utility) override {
+		Probe& p = *c->probe; if (p.quiet) return;
+		item(p, "rn"); p.log += ','; jint(p.log, sid(head)); p.log += ','; jint(p.log, prong1(prong)); p.log += ','; jrat(p.log, utility); p.log += ']'; }
+#endif
+};
+static VLogger theLogger;
+static bool loggerOf(FSM::Instance& i) { return coreOf(i).logger != nullptr; }
+#else
+static bool loggerOf(FSM::Instance&) { return false; }
+#endif
+
 struct Slot {
 	alignas(64) unsigned char storage[sizeof(FSM::Instance) + 64];
 	FSM::Instance* fsm = nullptr;
@@ -183,6 +227,7 @@ static void apiCall(Slot& sl, int slotId, const std::string& label, bool logOn, 
 		o += ",\"post\":"; o += post;
 		o += ",\"draws\":"; jint(o, p.draws);
 		o += ",\"plog\":["; o += p.plog; o += "]";
+		o += ",\"log\":["; o += p.log; o += "]";
 		o += ",\"quiet\":"; o += p.quiet ? "true" : "false"; o += ",\"allocs\":"; jint(o, p.quiet ? allocs : 0);
 		o += ",\"size\":"; jint(o, (long) sizeof(FSM::Instance));
 		o += ",\"buf\":["; o += sl.buf; o += "],\"ret\":"; jint(o, sl.ret);
@@ -285,10 +330,18 @@ static int run() {
 			memset(sl.storage, fill, sizeof sl.storage);
 			sl.ctx.probe = &sl.probe; sl.seq = 0; sl.lastSnap.clear();
 			sl.probe.instance = sl.storage;
-			#ifdef HFSM2_ENABLE_UTILITY_THEORY
-			apiCall(sl, cur, labelOf(t), logOn, [&] { static vf::ScriptedRng rng; sl.fsm = new (sl.storage) FSM::Instance{&sl.ctx, rng}; });
+			// new [1] : with 1, the logger is handed to the constructor (it then sees the initial activation)
+#ifdef HFSM2_ENABLE_LOG_INTERFACE
+			VLogger* const lg = t.size() > 1 && I(1) == 1 ? &theLogger : nullptr;
+	#define FX_LOGGER_ARG , lg
 #else
-			apiCall(sl, cur, labelOf(t), logOn, [&] { sl.fsm = new (sl.storage) FSM::Instance{&sl.ctx}; });
+			if (t.size() > 1 && I(1) == 1) { fprintf(stderr, "no logger in this build\n"); return 3; }
+	#define FX_LOGGER_ARG
+#endif
+#ifdef HFSM2_ENABLE_UTILITY_THEORY
+			apiCall(sl, cur, labelOf(t), logOn, [&] { static vf::ScriptedRng rng; sl.fsm = new (sl.storage) FSM::Instance{&sl.ctx, rng FX_LOGGER_ARG}; });
+#else
+			apiCall(sl, cur, labelOf(t), logOn, [&] { sl.fsm = new (sl.storage) FSM::Instance{&sl.ctx FX_LOGGER_ARG}; });
 #endif
 		}
 		else if (c == "copy") {
@@ -310,6 +363,9 @@ static int run() {
 			if (c == "update")        apiCall(sl, cur, labelOf(t), logOn, [&] { fsm.update(); });
 			else if (c == "react")    apiCall(sl, cur, labelOf(t), logOn, [&] { fsm.react(Ev{}); });
 			else if (c == "query")    apiCall(sl, cur, labelOf(t), logOn, [&] { Ev e; static_cast<const FSM::Instance&>(fsm).query(e); });
+#ifdef HFSM2_ENABLE_LOG_INTERFACE
+			else if (c == "logger")   apiCall(sl, cur, labelOf(t), logOn, [&] { fsm.attachLogger(I(1) == 1 ? &theLogger : nullptr); });
+#endif
 			else if (c == "reset")    apiCall(sl, cur, labelOf(t), logOn, [&] { fsm.reset(); });
 			else if (c == "enter")    apiCall(sl, cur, labelOf(t), logOn, [&] { manualEnter(fsm); });
 			else if (c == "exit")     apiCall(sl, cur, labelOf(t), logOn, [&] { manualExit(fsm); });
